@@ -11,7 +11,7 @@
     * `str.isidentifier` is modelled for ASCII (`isScopedIdent`); the theorems never unfold it;
     * `str(Decimal)` / `Decimal(str)`: a Decimal is carried by its `str()` text;
     * `get_object`: name resolution is the parameter `Env` (which dotted names resolve to a class / to a
-      callable that is the object itself); type names other than dict/Fraction/Decimal/tuple/frozenset are
+      callable that is the object itself); type names other than dict/Fraction/Decimal/tuple/frozenset/set are
       answered `Err.other "unmodelled"` (the real code would call whatever builtin has that name);
     * constructor reflection: an object is its class name plus its constructor-parameter dict
       (`simple_serialization`, L15-43, and `cls(**params)`, L129-131); class-specific `from_dict` hooks are not
@@ -39,7 +39,7 @@ inductive PVal where
   | list (l : List PVal)
   | tuple (l : List PVal)
   | fset (l : List PVal)                            -- frozenset (iteration order of the harness)
-  | set (l : List PVal)                             -- bare (mutable) set, or any other non-dict iterable
+  | set (l : List PVal)                             -- set (exact type; iteration order of the harness)
   | dict (d : List (PVal × PVal))                   -- any mapping, insertion order
   | obj (cls : String) (params : List (String × PVal))   -- object with `to_dict` from `simple_serialization`
   | callable (name : String) (isSelf : Bool)        -- `module.__name__`, and whether that name resolves to the object itself
@@ -207,8 +207,17 @@ def strKeys : List (PVal × PVal) → Option (List String)
   | (.atom (.str s), _) :: t => (strKeys t).map (s :: ·)
   | _ :: _ => none
 
+/-- the three reserved keys, tested in this order by `deserialize_value`; `RESERVED_KEYS` (L13) -/
+def reservedKeys : List String := ["type", "class", "callable"]
+
+/-- L56-57: `all(isinstance(key, str) ...) and not RESERVED_KEYS.intersection(value.keys())` -/
+def plainKeys (d : List (PVal × PVal)) : Option (List String) :=
+  match strKeys d with
+  | some ks => if ks.any (fun k => reservedKeys.contains k) then none else some ks
+  | none => none
+
 mutual
-/-- `serialize_value` (persist.py L46-79).  Test order of the code: `to_dict` present (objects), atomic,
+/-- `serialize_value` (persist.py L46-81).  Test order of the code: `to_dict` present (objects), atomic,
     convertible (Fraction, Decimal, frozenset, tuple), iterable (mapping with all-str keys / other mapping /
     any other iterable), callable, else ValueError. -/
 def serialize : PVal → Except Err J
@@ -220,17 +229,17 @@ def serialize : PVal → Except Err J
   | .dec s => pure (.dict [("type", .str "Decimal"), ("value", .str s)])                                  -- L193-194
   | .fset l => do let js ← serL l; pure (.dict [("type", .str "frozenset"), ("value", .list js)])         -- L197-203
   | .tuple l => do let js ← serL l; pure (.dict [("type", .str "tuple"), ("value", .list js)])
+  | .set l => do let js ← serL l; pure (.dict [("type", .str "set"), ("value", .list js)])
   | .dict d =>
-      match strKeys d with
-      | some ks => do                                   -- L55-59
+      match plainKeys d with
+      | some ks => do                                   -- L56-61: all keys are str and none is reserved
           let vs ← serV d
           pure (.dict (ks.zip vs))
-      | none => do                                      -- L60-65
+      | none => do                                      -- L62-67
           let kj ← serK d
           let vj ← serV d
           pure (.dict [("type", .str "dict"), ("keys", .list kj), ("values", .list vj)])
-  | .list l => do let js ← serL l; pure (.list js)     -- L66-67
-  | .set l => do let js ← serL l; pure (.list js)      -- L66-67: a set is just another iterable
+  | .list l => do let js ← serL l; pure (.list js)     -- L68-69
   | .callable name isSelf =>                            -- L68-77
       if isSelf then pure (.dict [("callable", .str name)]) else throw Err.valueError
   | .ncallable _ => throw (Err.other "AttributeError")  -- L69: `value.__name__` does not exist
@@ -272,7 +281,7 @@ def zipDict : List PVal → List PVal → List (PVal × PVal) → List (PVal × 
   | k :: ks, v :: vs, acc => zipDict ks vs (dictSet acc k v)
   | _, _, acc => acc
 
-/-- `frozenset(l)`: first occurrences (the harness compares frozensets order-free) -/
+/-- `frozenset(l)` / `set(l)`: first occurrences (the harness compares sets order-free) -/
 def dedup : List PVal → List PVal → List PVal
   | [], acc => acc
   | v :: t, acc => if v ∈ acc then dedup t acc else dedup t (acc ++ [v])
@@ -344,6 +353,14 @@ def deserTyped (env : Env) (d : List (String × J)) (R : List (String × Res)) :
     | some _, _ => throw unmodelled
     | none, _ => if (d.lookup "arguments").isSome || (d.lookup "parameters").isSome then throw unmodelled
                  else throw Err.valueError
+  else if tn = "set" then
+    match d.lookup "value", R.lookup "value" with
+    | some (.list _), some r => do
+        let l ← asList r
+        if hashableL l then pure (.set (dedup l [])) else throw (Err.other "TypeError")
+    | some _, _ => throw unmodelled
+    | none, _ => if (d.lookup "arguments").isSome || (d.lookup "parameters").isSome then throw unmodelled
+                 else throw Err.valueError
   else if env.resolves tn then throw unmodelled          -- some other global / builtin would be called
   else throw unresolvable                                -- L101 get_object: AttributeError / ImportError
 
@@ -399,15 +416,6 @@ def toDict (v : PVal) : Except Err J := serialize v
 
 /-! ### the decidable side conditions of the round-trip theorems -/
 
-/-- the three reserved keys, tested in this order by `deserialize_value` -/
-def reservedKeys : List String := ["type", "class", "callable"]
-
-/-- a str-keyed mapping whose *values* put an identifier-like string under a reserved key -/
-def reservedHit (d : List (PVal × PVal)) : Bool :=
-  reservedKeys.any (fun k => match d.lookup (PVal.atom (.str k)) with
-    | some (.atom (.str s)) => isScopedIdent s
-    | _ => false)
-
 def reservedHitF (d : List (String × PVal)) : Bool :=
   match d.lookup "type" with
   | some (.atom (.str s)) => isScopedIdent s
@@ -418,10 +426,8 @@ mutual
 def Representable (env : Env) : PVal → Bool
   | .atom _ | .frac _ | .dec _ => true
   | .list l | .tuple l => reprL env l
-  | .fset l => reprL env l && hashableL l && decide l.Nodup
-  | .set _ => false
+  | .fset l | .set l => reprL env l && hashableL l && decide l.Nodup
   | .dict d => reprD env d && hashableL (d.map (·.1)) && decide (d.map (·.1)).Nodup
-                && ((strKeys d).isNone || !reservedHit d)
   | .obj cls ps => isScopedIdent cls && decide (cls ∈ env.classes) && reprF env ps
                 && decide (ps.map (·.1)).Nodup && !(ps.map (·.1)).contains "class" && !reservedHitF ps
   | .callable n s => s && isScopedIdent n && decide (n ∈ env.callables)
@@ -455,6 +461,33 @@ def serzD : List (PVal × PVal) → Bool
 def serzF : List (String × PVal) → Bool
   | [] => true
   | (_, v) :: t => Serializable v && serzF t
+end
+
+
+mutual
+/-- Representation invariants of an in-memory value of this algebra — facts about any live Python object of these
+    types, not restrictions on configurations: set elements and mapping keys are hashable and pairwise different; the
+    class of an object and a callable that is "itself" resolve by their dotted name (`Env`); constructor parameter
+    names are pairwise different and none is `class` (a Python keyword); and — the one fact about class signatures,
+    true of every votelib class and asserted by the harness by reflection — no constructor parameter is called `type`
+    while holding an identifier-like string (`to_dict` writes parameters next to the `class` key, L36-40). -/
+def WFval (env : Env) : PVal → Bool
+  | .atom _ | .frac _ | .dec _ | .ncallable _ | .foreign _ => true
+  | .list l | .tuple l => wfvL env l
+  | .fset l | .set l => wfvL env l && hashableL l && decide l.Nodup
+  | .dict d => wfvD env d && hashableL (d.map (·.1)) && decide (d.map (·.1)).Nodup
+  | .obj cls ps => isScopedIdent cls && decide (cls ∈ env.classes) && wfvF env ps
+                && decide (ps.map (·.1)).Nodup && !(ps.map (·.1)).contains "class" && !reservedHitF ps
+  | .callable n s => !s || (isScopedIdent n && decide (n ∈ env.callables))
+def wfvL (env : Env) : List PVal → Bool
+  | [] => true
+  | v :: t => WFval env v && wfvL env t
+def wfvD (env : Env) : List (PVal × PVal) → Bool
+  | [] => true
+  | (k, v) :: t => WFval env k && WFval env v && wfvD env t
+def wfvF (env : Env) : List (String × PVal) → Bool
+  | [] => true
+  | (_, v) :: t => WFval env v && wfvF env t
 end
 
 end VL.Persist
